@@ -373,10 +373,10 @@ func genLZBoundary(n int, seed uint64) []byte {
 
 var shapeNames = []string{"text", "crlf", "xml", "utf8-2", "utf8-3", "utf8-4", "utf8-wide", "utf8-dense", "dna", "dna-mixed", "base64", "hex", "numeric",
 	"elf", "pe", "wav8m", "wav16s", "bmp", "runs", "sparse", "skew1", "skew3", "const", "random", "zipmagic", "period3", "period255", "period65535",
-	"rot256", "fib", "raredom", "lzbound"}
+	"rot256", "fib", "raredom", "lzbound", "mixed", "longlit"}
 
 // a smaller set for the expensive products
-var coreShapes = []string{"text", "utf8-3", "utf8-wide", "utf8-dense", "dna", "elf", "wav16s", "runs", "sparse", "skew3", "const", "random", "rot256", "lzbound", "period255"}
+var coreShapes = []string{"text", "utf8-3", "utf8-wide", "utf8-dense", "dna", "elf", "wav16s", "runs", "sparse", "skew3", "const", "random", "rot256", "lzbound", "period255", "mixed", "longlit"}
 
 func shape(name string, n int) []byte {
 	if n == 0 {
@@ -470,6 +470,33 @@ func shape(name string, n int) []byte {
 		return genRareDom(n, 192, 3, 8, true)
 	case "lzbound":
 		return genLZBoundary(n, seed)
+	case "mixed":
+		// segments of 1 KiB of different detected data types, in rotation: consecutive blocks (and
+		// the blocks that land in the same task slot of consecutive batches) differ in type
+		kinds := []string{"dna", "text", "utf8-3", "random", "elf", "numeric", "base64", "wav16s", "runs"}
+		out := make([]byte, 0, n)
+		for i := 0; len(out) < n; i++ {
+			seg := shape(kinds[(i*5+i/9)%len(kinds)], 1024)
+			out = append(out, seg[:min(1024, n-len(out))]...)
+		}
+		return out
+	case "longlit":
+		// a compressible block that contains one very long match-free stretch (literal run lengths
+		// beyond the 1- and 3-byte length encodings of the LZ family: >= 65797 bytes)
+		if n < 1024 {
+			return genText(n, seed, "\n")
+		}
+		lit := min(n*2/5, 90000)
+		if n >= 140000 {
+			lit = 70000 + (n % 1000)
+		}
+		head := (n - lit) / 3
+		out := append([]byte{}, genText(head, seed, "\n")...)
+		out = append(out, genRandom(lit, seed+1)...)
+		for len(out) < n {
+			out = append(out, 0)
+		}
+		return out
 	}
 	panic("unknown shape " + name)
 }
